@@ -392,7 +392,7 @@ namespace Pistache::Tcp
         else
         {
 #endif /* PISTACHE_USE_SSL */
-            bytesWritten = ::send(fd, buffer, len, flags);
+            bytesWritten = ::send(fd, buffer, len, flags | MSG_NOSIGNAL);
 #ifdef PISTACHE_USE_SSL
         }
 #endif /* PISTACHE_USE_SSL */
